@@ -31,6 +31,7 @@ def flat_locs(result, filename):
     return out
 
 
+@core.crash_guard({'checked_pairs': 1, 'nontrivial': True, 'runs': 0, 'exhaustive': False, 'skipped': None})
 def check_program(prog, cap):
     from supp import assistant
     src = prog['src']
